@@ -1,7 +1,7 @@
 """C11 Vertical structure is hydrostatic, ordered and one value per layer."""
 import ast
 
-from sa.helpers import (mkflow, spec, code, one, calls, bind_call, param_env,
+from sa.helpers import (the_return, mkflow, spec, code, one, calls, bind_call, param_env,
                         fmt, atom_of, unparse, walk_no_nested, unalloc, call_kw,
                         loop_matches)
 from sa.index import AnalysisError
@@ -103,7 +103,7 @@ def _run(ix, R):
     with R.guard('1.nlevels', 'ALG', site, 'nLevels'):
         f = ix.func(site)
         fl = mkflow(ix, site)
-        r = one(fl.of('return'), 'return')
+        r = the_return(fl)
         R.check('1.nlevels', 'ALG', site, 'nLevels = nLayers + 1', fl.tab.equal(r.value, spec(fl, 'self.nLayers + 1')),
                 key=fmt(fl, r.value), detail=fmt(fl, r.value), loc=f.loc(r.node))
     site = PP + '::SimplePressureProfile.__init__'
@@ -187,7 +187,7 @@ def _run(ix, R):
                 'dz_i = -H_{i-1} log(P_i/P_{i-1}); z_i = z_{i-1} + dz_i; g_i = g(z_i), H_i = k T_i/(mu_i g_i) '
                 'for i < N; z_0 = 0; g_0 = surface gravity; i = 1..N',
                 not why, key='; '.join(why), detail='; '.join(why), loc=f.loc())
-        r = one(fl.of('return'), 'return')
+        r = the_return(fl)
         fac = spec(fl, "conversion_factor('m', length_units)")
         want = fl.tab.atom('tuple', (allocs['z'] * fac, allocs['H'] * fac, allocs['g'] * fac,
                                      spec(fl, 'deltaz[1:]', b) * fac))
@@ -206,14 +206,14 @@ def _run(ix, R):
             f = ix.func(site)
             fl = mkflow(ix, site)
             pe = param_env(fl, f, ['h']) if len(f.params()) > 1 else {}
-            r = one(fl.of('return'), 'return')
+            r = the_return(fl)
             R.check('2.' + nm, 'ALG', site, '%s = %s' % (nm, want), fl.tab.equal(r.value, spec(fl, want, pe)),
                     key=fmt(fl, r.value), detail=fmt(fl, r.value), loc=f.loc(r.node))
     site = SM + '::SimpleForwardModel.densityProfile'
     with R.guard('2.density', 'ALG', site, 'density'):
         f = ix.func(site)
         fl = mkflow(ix, site)
-        r = one(fl.of('return'), 'return')
+        r = the_return(fl)
         R.check('2.density', 'ALG', site, 'number density = P/(k T)',
                 fl.tab.equal(r.value, spec(fl, 'self.pressureProfile/(KBOLTZ*self.temperatureProfile)')),
                 key=fmt(fl, r.value), detail=fmt(fl, r.value), loc=f.loc(r.node))
